@@ -20,17 +20,25 @@ def run_property(pid, tier, only=None, repo=None, quiet=False):
     except ImportError as e:
         print("ANALYSIS-ERROR property=%s no rule module: %s" % (pid, e))
         return 2
+    prog = None
     try:
         prog = Program(repo or REPO)
         mod.check(run, prog, tier)
         return run.finish(prog)
     except AnalysisError as e:
-        print("ANALYSIS-ERROR property=%s %s" % (pid, e))
-        return 2
-    except Exception:
-        print("ANALYSIS-ERROR property=%s internal error" % pid)
+        # findings of the rules that completed stand; without any, this is an analysis error
+        try:
+            return run.finish(prog, interrupted=str(e))
+        except Exception:
+            print("ANALYSIS-ERROR property=%s %s" % (pid, e))
+            return 2
+    except Exception as e:
         traceback.print_exc()
-        return 2
+        try:
+            return run.finish(prog, interrupted="internal error: %s: %s" % (type(e).__name__, e))
+        except Exception:
+            print("ANALYSIS-ERROR property=%s internal error" % pid)
+            return 2
 
 
 def main(argv):
